@@ -256,6 +256,9 @@ def run(rep, tier):
                         # scalar (the file and the attribute quote their strings; on the command line the shell strips quotes)
                         if c["srcs"]["file"] != "absent" or c["srcs"]["attr"] != "absent":
                             vsets.append(dict(vsets[0], file="2048", attr="77"))
+                        # the EMPTY string is a value like any other: a bare `--config key=` assigns it (and wins over the file)
+                        if c["srcs"]["cli"] != "absent" and fam.name != "kotlin.domain":
+                            vsets.append(dict(vsets[0], cli=""))
                         for values in vsets:
                             res, how = run_case(fam, b, c, values, style, wd)
                             nruns += 1
@@ -269,7 +272,7 @@ def run(rep, tier):
                                 ok = got not in values.values()
                             if not ok:
                                 rep.violation({"family": fam.name, "backend": b, "effective_source": eff, "srcs": c["srcs"],
-                                               "values": "plain" if values is vsets[0] else "numeric-looking strings"},
+                                               "values": "plain" if values is vsets[0] else ("empty on the command line" if values["cli"] == "" else "numeric-looking strings")},
                                               {"expected_value": want, "observed_value": got, "how": how, "stderr": res["stderr"][-600:]})
                     else:
                         # two-valued settings: each present source in turn carries the distinguished value
